@@ -359,6 +359,26 @@ let ctx_call pre_ fn a =
         | _ -> ())
    | _ -> ())
 
+(* C11: an increment / decrement of n steps raises the actor's running total by exactly n
+   ("no increment is lost or counted twice") *)
+let c11_call pre_ fn a =
+  let chk what total steps d =
+    count "C11";
+    if int_of_n d.dcounter <> total + steps then
+      report "C11" (Printf.sprintf "%s.%s of %d step(s) on a running total of %d yields the total %d" pre_ what steps total (int_of_n d.dcounter)) in
+  match pre_, fn, a with
+  | "gcounter", "inc", [s; x; d] -> chk fn (int_of_n (vget (vc_sx s) (n_sx x))) 1 (dot_sx d)
+  | "gcounter", "inc_many", [s; x; st; d] -> chk fn (int_of_n (vget (vc_sx s) (n_sx x))) (int_sx st) (dot_sx d)
+  | "pncounter", ("inc" | "dec" | "inc_many" | "dec_many"), [s; x; st; o] ->
+      let pos = (fn = "inc" || fn = "inc_many") in
+      let side = vc_sx (field (if pos then "p" else "n") s) in
+      let steps = if fn = "inc" || fn = "dec" then 1 else int_sx st in
+      let dirok = (variant (field "dir" o) = (if pos then "Pos" else "Neg")) in
+      count "C11";
+      if not dirok then report "C11" (Printf.sprintf "pncounter.%s produces an op of the wrong direction" fn);
+      chk fn (int_of_n (vget side (n_sx x))) steps (dot_sx (field "dot" o))
+  | _ -> ()
+
 let on_call (case : string) (cmd : string) (f : string) (a : sx list) =
   cur := (case, cmd);
   let pre_, fn = match String.index_opt f '.' with
@@ -374,6 +394,7 @@ let on_call (case : string) (cmd : string) (f : string) (a : sx list) =
           | _ -> ())
      | "serde" -> if not !tainted then serde_call a
      | _ -> ());
+    if not !tainted then (try c11_call pre_ fn a with Bad _ -> ());
     if not !tainted && discipline_ok () then begin generic_call pre_ fn a; ctx_call pre_ fn a end
   with Bad m -> report "DRIVER" ("monitor error: " ^ m)
 
@@ -439,7 +460,17 @@ let spec_check (know : int list) (s : sx) =
       cmp "C11" (fun l -> show_n l.lww_val ^ "@" ^ show_n l.lww_marker) lww_eqb
         (lwwspec { lww_val = N0; lww_marker = N0 } (history_of lww_sx) k) (lww_sx s)
   | "glist" -> cmp "C12" show_glist (=) (glspec (history_of glop_sx) k) (glist_sx s)
-  | "list" -> cmp "C12" show_clist clist_eqb (lspec (history_of lop_sx) k) (clist_sx s)
+  | "list" ->
+      cmp "C12" show_clist clist_eqb (lspec (history_of lop_sx) k) (clist_sx s);
+      (* the literal sentence of C12: the sequence holds exactly the elements the replica has seen
+         inserted and not deleted (identifiers of insert ops minus identifiers of delete ops), once each *)
+      let ops = known_ops (history_of lop_sx) k in
+      let ins = List.filter_map (function LInsert (i, v) -> Some (i, v) | _ -> None) ops
+      and del = List.filter_map (function LDelete (i, _) -> Some i | _ -> None) ops in
+      let expected = List.sort_uniq compare (List.filter (fun (i, _) -> not (List.mem i del)) ins) in
+      let got = List.sort compare (clist_sx s).lseq in
+      expect "C12" (fun () -> Printf.sprintf "the sequence does not hold exactly the elements seen inserted and not deleted: %d expected, %d present" (List.length expected) (List.length got))
+        (expected = got)
   | "merkle" ->
       (* the received node set of this replica: the nodes of the ops it knows *)
       let node_of o = match o with
